@@ -40,7 +40,7 @@ def make_transformer(base, style, rules, toks):
     for r in rules:
         if style == 'plain': ns[r] = (lambda name: lambda self, ch: (name, freeze(ch)))(r)
         elif style == 'inline': ns[r] = (lambda name: lambda self, *ch: (name, freeze(ch)))(r)
-        else: ns[r] = (lambda name: lambda self, t: (name, freeze(t.children)))(r)
+        else: ns[r] = (lambda name: lambda self, t: (name, str(t.data), freeze(t.children)))(r)      # tree style: the node name the callback sees matters too
     cls = type('T', (BASES[base],), ns)
     if style == 'inline': cls = v_args(inline=True)(cls)
     elif style == 'tree': cls = v_args(tree=True)(cls)
